@@ -39,6 +39,8 @@ var kindYAML = map[string]string{
 	"null": "null", "empty-string": "''", "scalar": "abc", "int": "42", "bool": "true", "empty-seq": "[]", "seq-scalar": "[abc]",
 	"seq-null": "[null]", "seq-map": "[{k: v}]", "empty-map": "{}", "map-unknown": "{unknown_key: 1}", "map-null-value": "{sh: null}",
 	"nested-seq": "[[a]]", "tilde": "~", "template": "'{{.NOPE | nofunc}}'",
+	"hash-string": "'#x'", "blank-string": `"\t"`, "unset-var-string": "'$VERIF_UNSET_VARIABLE'", "bad-glob-string": `'a[{"'`,
+	"tilde-user-string": "'~nosuchuser_verif/x'", "multiline-string": `"a\nb"`,
 }
 
 // Render builds the Taskfile: the baseline with the deviations substituted.
